@@ -606,12 +606,175 @@ Proof.
   unfold api_unpeer_checked, api_unpeer_with. repeat (apply same_eff_bind; intros). apply same_eff_ret.
 Qed.
 
+Lemma eff_api_unpeer6 a b ca cb ca' cb' s :
+  same_eff (api_unpeer6 a b ca cb s) (api_unpeer6 a b ca' cb' s).
+Proof.
+  unfold api_unpeer6. apply same_eff_bind. intros x s1. apply same_eff_bind. intros _ s2.
+  apply same_eff_bind. intros ps s3. destruct ps as [|p ps']; [apply same_eff_refl|].
+  apply same_eff_bind. intros _ s4. apply same_eff_ret.
+Qed.
+
 Theorem cache_independent ex o cs cs' g : same_eff (run (exec ex o cs) g) (run (exec ex o cs') g).
 Proof.
   unfold run. destruct o; simpl;
     try (apply same_eff_bind; intros; apply same_eff_ret).
   - apply (same_eff_then_ret _ _ (fun c => [c]) (fun c => [c])). apply eff_api_disconnect.
   - apply (same_eff_then_ret _ _ (fun cc => [fst cc; snd cc]) (fun cc => [fst cc; snd cc])). apply eff_api_unpeer.
+  - apply (same_eff_then_ret _ _ (fun cc => [fst cc; snd cc]) (fun cc => [fst cc; snd cc])). apply eff_api_unpeer6.
   - apply (same_eff_then_ret _ _ (fun c => [c]) (fun c => [c])). apply eff_api_remove_interface.
   - apply (same_eff_then_ret _ _ (fun c => [c]) (fun c => [c])). apply eff_api_remove_child.
+Qed.
+
+(* ================= unpeer as rewritten by proposed_fixes/C08-6 (operation OUnpeer6) ================= *)
+
+Lemma class_has g x c : class_of g x = c -> c <> COther -> has_node g x = true.
+Proof. unfold class_of, has_node. destruct (find_node g x); [reflexivity | intros <- H; exfalso; apply H; reflexivity]. Qed.
+
+Lemma has_node_delete g n x : x <> n -> has_node (delete g n) x = has_node g x.
+Proof.
+  intros H. replace (delete g n) with (restrict g [n]).
+  - rewrite has_node_restrict. simpl. destruct (N.eqb x n) eqn:E; [apply N.eqb_eq in E; contradiction | reflexivity].
+  - rewrite <- (restrict_nil g) at 2. symmetry. apply delete_restrict.
+Qed.
+
+Lemma for_each_delete_succeeds l : forall (s : st),
+  NoDup l -> (forall x, In x l -> has_node (fst s) x = true) -> exists s', for_each m_delete l s = (inl tt, s').
+Proof.
+  induction l as [|a l IH]; intros s Hn Hh; simpl.
+  - exists s. reflexivity.
+  - unfold bind, m_delete. rewrite (Hh a (or_introl eq_refl)). inversion Hn as [|? ? Ha Hn']; subst.
+    apply (IH (delete (fst s) a, a :: snd s) Hn'). intros x Hx. simpl.
+    rewrite has_node_delete; [apply Hh; right; exact Hx | intros ->; exact (Ha Hx)].
+Qed.
+
+Lemma cp_del_list_has g n dp x : has_node g n = true -> In x (cp_del_list g n dp) -> has_node g x = true.
+Proof.
+  intros Hn Hx. apply cp_del_list_In in Hx. destruct Hx as [Hx|Hx].
+  - unfold cp_family in Hx. rewrite dedup_In in Hx. destruct Hx as [<-|Hx]; [exact Hn|].
+    apply filter_In in Hx. destruct Hx as [Hx _]. apply first_neighbor_In in Hx. destruct Hx as [_ Hx].
+    apply (class_has g x CCP Hx). discriminate.
+  - apply cp_links_In in Hx. destruct Hx as [i [_ [Hx _]]]. apply first_neighbor_In in Hx. destruct Hx as [_ Hx].
+    apply (class_has g x CLink Hx). discriminate.
+Qed.
+
+(* remove_cp_and_links on a node that is there always returns normally *)
+Lemma remove_cp_succeeds n dp (s : st) : has_node (fst s) n = true -> exists s', remove_cp_and_links n dp s = (inl tt, s').
+Proof.
+  intros Hn. unfold remove_cp_and_links, bind, m_nonempty, need_node, m_read, m_get.
+  assert (Hne : gnodes (fst s) <> []).
+  { unfold has_node, find_node in Hn. destruct (gnodes (fst s)); [discriminate | discriminate]. }
+  destruct (gnodes (fst s)) eqn:Eg; [contradiction|]. simpl.
+  unfold has_node in Hn. destruct (find_node (fst s) n) eqn:Ef; [|discriminate]. simpl.
+  unfold for_each_set.
+  destruct (for_each_delete_succeeds (cp_del_list (fst s) n dp) s) as [s' Hs'].
+  - unfold cp_del_list. apply dedup_NoDup.
+  - intros x Hx. apply (cp_del_list_has (fst s) n dp x); [unfold has_node; rewrite Ef; reflexivity | exact Hx].
+  - exists s'. rewrite Hs'. reflexivity.
+Qed.
+
+Lemma remove_if_there_succeeds c (s : st) : exists s', remove_if_there c s = (inl tt, s').
+Proof.
+  unfold remove_if_there, bind, m_get. simpl.
+  destruct (has_node (fst s) c && cls_eqb (class_of (fst s) c) CCP) eqn:Eb.
+  - apply andb_true_iff in Eb. destruct Eb as [Hh _]. apply remove_cp_succeeds. exact Hh.
+  - exists s. reflexivity.
+Qed.
+
+Lemma for_each_succeeds {A} (f : A -> M unit) l :
+  (forall x s, exists s', f x s = (inl tt, s')) -> forall s, exists s', for_each f l s = (inl tt, s').
+Proof.
+  intros H. induction l as [|a l IH]; intros s; simpl; [exists s; reflexivity|].
+  unfold bind. destruct (H a s) as [s1 E]. rewrite E. apply IH.
+Qed.
+
+(* unpeer (C08-6) succeeds exactly when a peering pair exists *)
+Theorem unpeer6_succeeds_iff ex a b cs g :
+  class_of g a = CNS ->
+  ((exists cs' g' tr, run (exec ex (OUnpeer6 a b) cs) g = (inl cs', (g', tr))) <-> unpeer_pairs g a b <> []).
+Proof.
+  intros Ha. assert (Hh : has_node g a = true) by (apply (class_has g a CNS Ha); discriminate).
+  unfold run. simpl. unfold bind at 1. unfold api_unpeer6, bind, need_node, m_read, m_get, guard. simpl.
+  unfold has_node in Hh. unfold class_of in Ha. destruct (find_node g a) as [xa|] eqn:Ef; [|discriminate].
+  rewrite Ha. simpl.
+  destruct (unpeer_pairs g a b) as [|p0 ps'] eqn:U; simpl.
+  - split; [intros [cs' [g' [tr E]]]; discriminate | intros H; exfalso; apply H; reflexivity].
+  - split; [intros _; discriminate|]. intros _.
+    destruct (for_each_succeeds remove_if_there (unpeer6_ends (p0 :: ps')) remove_if_there_succeeds (g, [])) as [s' E].
+    unfold for_each_set. rewrite E. simpl. destruct s' as [g' tr]. unfold ret. eauto.
+Qed.
+
+(* without a peering pair: "do not peer", nothing changes *)
+Theorem unpeer6_not_peered ex a b cs g r g' tr :
+  run (exec ex (OUnpeer6 a b) cs) g = (r, (g', tr)) -> unpeer_pairs g a b = [] ->
+  (exists e, r = inr e) /\ tr = [] /\ g' = g.
+Proof.
+  intros E U. unfold run in E. simpl in E. unfold bind, api_unpeer6, bind, need_node, m_read, m_get, guard in E. simpl in E.
+  destruct (find_node g a) as [xa|]; [|inversion E; eauto]. simpl in E.
+  destruct (cls_eqb (ncls xa) CNS || cls_eqb (ncls xa) CLink); simpl in E; [|inversion E; eauto].
+  rewrite U in E. simpl in E. inversion E; eauto.
+Qed.
+
+(* it removes exactly the peering: every end of every pair is deleted (normal return), and whatever is deleted is such
+   an end, a connection point next to one, or a link attached to them; the two-ended links go by links2_exec *)
+Theorem unpeer6_removes_exactly ex a b cs g r g' tr :
+  run (exec ex (OUnpeer6 a b) cs) g = (inl r, (g', tr)) ->
+  (forall xy, In xy (unpeer_pairs g a b) -> In (fst xy) tr /\ In (snd xy) tr) /\
+  (forall x, In x tr -> exists xy, In xy (unpeer_pairs g a b) /\ (U_cp g (fst xy) true x \/ U_cp g (snd xy) true x)).
+Proof.
+  intros E. split.
+  - intros xy Hxy. split; apply (target_exec _ _ _ _ _ _ _ E); simpl; exists xy; auto.
+  - intros x Hx. exact (sound_exec _ _ _ _ _ _ _ E x Hx).
+Qed.
+
+(* handle lists after unpeer (C08-6) = fresh look-ups; hypotheses: the ends have no neighbouring connection point, and
+   an end on b's side is not a port of a and vice versa *)
+Theorem handles_unpeer6 ex a b ca cb g cs' g' tr :
+  run (exec ex (OUnpeer6 a b) [ca; cb]) g = (inl cs', (g', tr)) ->
+  class_of g a = CNS -> class_of g b = CNS ->
+  same ca (cpn g a) -> same cb (cpn g b) ->
+  (forall xy, In xy (unpeer_pairs g a b) ->
+     cpn g (fst xy) = [] /\ cpn g (snd xy) = [] /\ ~ In (snd xy) (cpn g a) /\ ~ In (fst xy) (cpn g b)) ->
+  exists ca' cb', cs' = [ca'; cb'] /\ same ca' (cpn g' a) /\ same cb' (cpn g' b).
+Proof.
+  intros E Ha Hb Hca Hcb Hp.
+  pose proof (frame_exec _ _ _ _ _ _ _ E) as Hg.
+  destruct (unpeer6_removes_exactly _ _ _ _ _ _ _ _ E) as [Htar Hsnd].
+  (* a connection point in the trace is an end; a service is never in the trace *)
+  assert (Hcp : forall z, class_of g z = CCP -> In z tr -> exists xy, In xy (unpeer_pairs g a b) /\ (z = fst xy \/ z = snd xy)).
+  { intros z Hz Hin. destruct (Hsnd z Hin) as [xy [Hxy HU]]. exists xy. split; [exact Hxy|].
+    destruct (Hp xy Hxy) as [H1 [H2 _]].
+    destruct HU as [[[->|[_ Hn]]|[i [[->|[_ Hi]] Hl]]]|[[->|[_ Hn]]|[i [[->|[_ Hi]] Hl]]]]; auto;
+      try (unfold cpn in *; rewrite H1 in *; contradiction); try (unfold cpn in *; rewrite H2 in *; contradiction);
+      try (unfold lks in Hl; apply first_neighbor_In in Hl; destruct Hl as [_ Hl]; congruence). }
+  assert (Hns : forall s, class_of g s = CNS -> ~ In s tr).
+  { intros s Hs Hin. destruct (Hsnd s Hin) as [xy [Hxy HU]].
+    destruct (unpeer_pairs_class g a b xy Hxy) as [C1 C2]. destruct (Hp xy Hxy) as [H1 [H2 _]].
+    destruct HU as [[[->|[_ Hn]]|[i [_ Hl]]]|[[->|[_ Hn]]|[i [_ Hl]]]]; try congruence;
+      try (apply cpn_class in Hn; congruence);
+      try (unfold lks in Hl; apply first_neighbor_In in Hl; destruct Hl as [_ Hl]; congruence). }
+  (* the returned caches *)
+  unfold run in E. simpl in E.
+  apply bind_ok in E. destruct E as [cc [s1 [E E2]]]. apply ret_ok in E2. destruct E2 as [-> E2]. subst s1.
+  exists (fst cc), (snd cc). split; [reflexivity|].
+  unfold api_unpeer6 in E.
+  apply bind_ok in E. destruct E as [x0 [s0 [E1 E]]]. apply need_node_ok in E1. destruct E1 as [_ ->].
+  apply bind_ok in E. destruct E as [[] [s0 [E1 E]]]. apply guard_ok in E1. destruct E1 as [_ ->].
+  apply bind_ok in E. destruct E as [ps [s0 [E1 E]]]. apply get_ok in E1. destruct E1 as [-> ->].
+  simpl in E. destruct (unpeer_pairs g a b) as [|p0 ps'] eqn:U; [discriminate|].
+  apply bind_ok in E. destruct E as [[] [s1 [E1 E]]]. apply ret_ok in E. destruct E as [-> _]. cbn [fst snd].
+  subst g'. split.
+  - intros z. rewrite (fresh_after g tr a z (Hns a Ha)), filter_In, negb_true_iff, (Hca z). split.
+    + intros [Hz Hm]. split; [exact Hz|]. intros Hin.
+      destruct (Hcp z (cpn_class g a z Hz) Hin) as [xy [Hxy [->| ->]]].
+      * assert (memN (fst xy) (map fst (p0 :: ps')) = true) by (apply memN_In; apply in_map; exact Hxy). congruence.
+      * destruct (Hp xy Hxy) as [_ [_ [H3 _]]]. exact (H3 Hz).
+    + intros [Hz Hnt]. split; [exact Hz|]. apply memN_false. intros Hin. apply in_map_iff in Hin.
+      destruct Hin as [xy [<- Hxy]]. apply Hnt. apply (Htar xy Hxy).
+  - intros z. rewrite (fresh_after g tr b z (Hns b Hb)), filter_In, negb_true_iff, (Hcb z). split.
+    + intros [Hz Hm]. split; [exact Hz|]. intros Hin.
+      destruct (Hcp z (cpn_class g b z Hz) Hin) as [xy [Hxy [->| ->]]].
+      * destruct (Hp xy Hxy) as [_ [_ [_ H4]]]. exact (H4 Hz).
+      * assert (memN (snd xy) (map snd (p0 :: ps')) = true) by (apply memN_In; apply in_map; exact Hxy). congruence.
+    + intros [Hz Hnt]. split; [exact Hz|]. apply memN_false. intros Hin. apply in_map_iff in Hin.
+      destruct Hin as [xy [<- Hxy]]. apply Hnt. apply (Htar xy Hxy).
 Qed.
